@@ -26,6 +26,9 @@ type G struct {
 	Bias map[string]int
 	// proofIntent is the identifier the DID proof under construction is made for.
 	proofIntent string
+	// burstDID / burstLeft: a run of consecutive failing proofs for one identifier is in progress.
+	burstDID  string
+	burstLeft int
 	// wellFormedOnly suppresses deliberately malformed parts in generated documents.
 	wellFormedOnly bool
 	// forceEmptyDocProof makes the next proof cover the id-less document.
